@@ -1,7 +1,9 @@
 SPECIFICATION Spec
 CONSTANTS
- MaxLen = 3
+ MaxLen = 4
  NegLen = 2
+ PSplit = 3
+ MaxLenHigh = 3
  Exps <- ExpsFull
  Precs <- PrecsFull
 INVARIANT Lemmas
